@@ -92,6 +92,13 @@ class Rule:
         if nm == "half":
             k, aa, b, off, s2 = a
             return poly_hash(aa, b, vals) % k + off      # the extra 1/2 is added in __call__ (unscaled units)
+        if nm == "pulse":
+            k, t0, off = a
+            if len(shape) == 1:
+                centre = vals[len(vals) // 2]
+            else:
+                centre = vals[(shape[0] // 2) * shape[1] + shape[1] // 2]
+            return (centre + 1) % k + off if t == t0 else centre
         raise ValueError("unknown rule " + self.spec)
 
     def stored(self):
@@ -103,7 +110,7 @@ class Rule:
         return out
 
     def fresh(self):
-        return Rule(self.spec, self.scale)
+        return Rule(self.spec, self.scale, clobber=self.clobber)
 
 
 class Pred:
